@@ -61,6 +61,15 @@ theorem dispHandle2_Y {a : ACfg} {s : St} (i : InvY a s) (v : Nat) : InvY a (dis
     · exact i.frame rfl rfl
     · exact startClose_Y i _ _
   · exact i.frame rfl rfl
+  · exact i.frame rfl rfl
+
+theorem handlerDone_Y {a : ACfg} {s : St} (i : InvY a s) (t : ATid) (v : Nat) : InvY a (handlerDone a s t v) := by
+  unfold handlerDone
+  split
+  · split
+    · exact i.frame rfl rfl
+    · exact startClose_Y i _ _
+  · exact i.frame rfl rfl
 
 theorem stepDisp2_Y {a : ACfg} {s : St} (i : InvY a s) : InvY a (stepDisp2 a s) := by
   unfold stepDisp2
@@ -93,7 +102,9 @@ theorem stepRun2_Y {a : ACfg} {s : St} (i : InvY a s) (t : ATid) : InvY a (stepR
     · split
       · exact stepDisp2_Y i0
       · exact i0
-    · split <;> exact i0.frame rfl rfl
+    · split
+      · exact handlerDone_Y i0 _ _
+      · exact i0.frame rfl rfl
     · exact i0.frame rfl rfl
     · split <;> exact i0.frame rfl rfl
     · exact i0.frame rfl rfl
